@@ -181,9 +181,23 @@ def check_c17(ctx):
                 eq[dec] = bool(t["ok"] and d[i]["ok"] and d[i]["tree"] == trees[i] and d[n + i]["ok"] and d[n + i]["tree"] == trees[i])
             cs = sorted(classes_of(v) & (set(STR) | set(NUM) | set(OTHER)))
             named = all((not isinstance(x, str)) or x in STR.values() for x in _strings(v))
-            recs.append({"enc": enc, "ok": bool(t["ok"]), "isstr": bool(t["isstr"]), "path": t["path"], "rawLF": "\n" in s, "rawCR": "\r" in s,
+            recs.append({"enc": enc, "ok": bool(t["ok"]), "isstr": bool(t["isstr"]), "path": t["path"], "rawLF": "\n" in s or not t.get("altSame", True), "rawCR": "\r" in s,
                          "cs": cs if named else [], "raw": sorted(raw_classes(s, v) - {"ascii", "empty"}) if named else [], "eqOrjson": eq["orjson"], "eqStdlib": eq["stdlib"], "named": named,
                          "valuePreview": json.dumps(v, ensure_ascii=True)[:80]})
+    # seeded deep values: chains nested 200 .. 1300 levels (beyond what the fast back end takes), every
+    # encoder x decoder pair; judged like any other value (round trip under each back end, one line)
+    depths = [200, 254, 255, 256, 500, 1000, 1023, 1024, 1100, 1300]
+    deep = {}
+    for enc, no in (("orjson", False), ("stdlib", True)):
+        deep[enc] = worker(no, {"op": "deep", "depths": depths})
+    for enc in ("orjson", "stdlib"):
+        items = [{"text": r_["text"], "depth": r_["depth"]} for r_ in deep[enc]]
+        dd = {dec: worker(no, {"op": "deepdecode", "items": items}) for dec, no in (("orjson", False), ("stdlib", True))}
+        for i, r_ in enumerate(deep[enc]):
+            too_deep = deep["orjson"][i]["path"] == "fallback"          # a property of the value: the fast encoder refuses it
+            recs.append({"enc": enc, "ok": bool(r_["encoded"]), "isstr": True, "path": r_["path"], "rawLF": "\n" in r_["text"], "rawCR": "\r" in r_["text"],
+                         "cs": ["deep"] if too_deep else [], "raw": [], "eqOrjson": bool(r_["encoded"] and dd["orjson"][i]["ok"]), "eqStdlib": bool(r_["encoded"] and dd["stdlib"][i]["ok"]), "named": True,
+                         "valuePreview": "deep %s chain, %d levels" % (r_["shape"], r_["depth"])})
     # one NDJSON frame, as the library's own line reader sees it: every text encoded by either
     # back end, written as a line, comes out of the real stdio reader as exactly one message
     from harness.drivers import stdio_drv
@@ -210,7 +224,7 @@ def check_c17(ctx):
         if not x["named"]:
             y["cs"] = []
             y["raw"] = []
-        y["cs"] = [c for c in y["cs"] if c in STR or c in NUM or c in OTHER]
+        y["cs"] = [c for c in y["cs"] if c in STR or c in NUM or c in OTHER or c == "deep"]
         slim.append(y)
     res = validate.validate("CodecTrace", slim, {}, work=os.path.join(ctx.work, "val"), chunk=3000)
     if res["rejected"]:
